@@ -124,6 +124,9 @@ impl Acked {
             return Err(AckedError::InvalidTopic(self.topic));
         }
 
+        #[cfg(p2panda_p2panda_verif)]
+        p2panda_core::verif::point("acked.ack.before_read").await;
+
         let mut cursor = self.cursor().await?;
         cursor.advance(
             header.verifying_key,
